@@ -87,9 +87,36 @@ pub(crate) fn remove_syntactic_sugar(
         if body.contains_anonymous_component(Some(reports)) {
             continue;
         }
+        if let Some(meta) = find_multi_substitution(body) {
+            // The left-hand side is neither a variable nor a tuple. (For
+            // templates this is reported when tuples are removed.)
+            let error = TupleError::new(
+                Some(meta),
+                "The left-hand side of an assignment must be a variable.",
+                None,
+            );
+            reports.push(error.into_report());
+            continue;
+        }
         new_functions.insert(name.clone(), function.clone());
     }
     (new_templates, new_functions)
+}
+
+/// Returns the location of the first assignment in the statement where the
+/// left-hand side is not a variable (if any).
+fn find_multi_substitution(stmt: &Statement) -> Option<&Meta> {
+    use Statement::*;
+    match stmt {
+        MultiSubstitution { meta, .. } => Some(meta),
+        IfThenElse { if_case, else_case, .. } => find_multi_substitution(if_case)
+            .or_else(|| else_case.as_ref().and_then(|else_case| find_multi_substitution(else_case))),
+        While { stmt, .. } => find_multi_substitution(stmt),
+        InitializationBlock { initializations: stmts, .. } | Block { stmts, .. } => {
+            stmts.iter().find_map(find_multi_substitution)
+        }
+        _ => None,
+    }
 }
 
 fn remove_anonymous_from_statement(
